@@ -105,9 +105,18 @@ def run_real(typ, kind, m, x0, flag, order, eps, level, max_iter, tap=False):
         with ctxm as t, contextlib.redirect_stdout(buf):
             if level == "obj":
                 before = stacked(holder)
+                # the usual sequence: read the variables of the object (real accessor), then project the same object
+                acc = np.array(holder.to_var(), dtype=np.float64).ravel()
+                out["accessor_ok"] = bool(acc.shape == to_var(typ, c, before, flag).shape
+                                          and np.array_equal(acc, to_var(typ, c, before, flag)))
+                out["accessor_pure"] = bool(np.array_equal(before, stacked(holder)))
                 r, h = holder.calc_proj_physical(max_iteration=max_iter, is_iteration_history=True)
                 out["arg_same"] = bool(np.array_equal(before, stacked(holder)))
                 res = stacked(r)
+                # ... and the variables of the RESULT, after which the result (= last history entry) must still be what it was
+                rv = np.array(r.to_var(), dtype=np.float64).ravel()
+                out["result_accessor_ok"] = bool(np.array_equal(res, stacked(r)) and rv.shape == to_var(typ, c, res, flag).shape
+                                                 and np.array_equal(rv, to_var(typ, c, res, flag)))
                 out["res_var"] = to_var(typ, c, res, flag)
                 out["ret_full"] = res
                 H = {k: [None if v is None else stacked(v) for v in h[k]] for k in ("p", "q", "x", "y")}
@@ -355,6 +364,9 @@ def check_start(ctx, g, typ, kind, m, x0, flag, eps, cls, max_iter, ncomp):
                 ctx.violate(sg + "/raises", f"{r['err']}: {r.get('msg')}", rep); continue
             if not r["arg_same"]:
                 ctx.violate(sg + "/mutates-argument", "the input object / variable vector was modified", rep)
+            if level == "obj" and not (r.get("accessor_ok", True) and r.get("accessor_pure", True) and r.get("result_accessor_ok", True)):
+                ctx.violate(sg + "/to_var-accessor", "to_var() of the input / of the result is not the variables of that object, or "
+                            "reading it changed the object (the last history entry IS the result object)", rep)
             runs[(level, order)] = r
             check_history(ctx, sg, rep, typ, kind, m, r, eps, max_iter, order)
     if not runs:
@@ -429,6 +441,20 @@ def check_start(ctx, g, typ, kind, m, x0, flag, eps, cls, max_iter, ncomp):
                         fv = np.array(getattr(holder, nm)(mode_proj_order=order, max_iteration=max_iter, **kw)(var.copy()), dtype=float)
                 except Exception as e:  # noqa
                     ctx.violate(f"C05/{typ}/{nm}{suffix}/raises", f"{type(e).__name__}: {str(e)[:150]}", rep); continue
+                if nm == "func_calc_proj_physical" and suffix == "":
+                    # the same closure with is_iteration_history=True: returned variables = variables of the last recorded x
+                    try:
+                        with contextlib.redirect_stdout(io.StringIO()):
+                            fh, hist = holder.func_calc_proj_physical(mode_proj_order=order, max_iteration=max_iter,
+                                                                       is_iteration_history=True, **kw)(var.copy())
+                        last = stacked(hist["x"][-1])
+                        okh = np.array_equal(np.array(fh, dtype=float).ravel(), to_var(typ, c, last, flag)) and \
+                            len(hist["x"]) == len(hist["p"]) == len(hist["q"]) == len(hist["y"]) == len(hist["error_value"]) + 1
+                    except Exception as e:  # noqa
+                        okh = False
+                    if not okh:
+                        ctx.violate(f"C05/{typ}/func_calc_proj_physical/history", "closure with is_iteration_history=True: the returned "
+                                    "variables are not those of the last recorded x / the history is unusable", rep)
                 base = runs.get(("var", order))
                 if base is None or len(base["hist"]["x"]) - 1 >= max_iter:
                     continue
